@@ -196,10 +196,12 @@ for _o in ('zyx', 'xyz', 'yxz'):
     @claim(f'class-rpy-multi:{_o}')
     def _(h, o=_o):
         """the accessor on an object holding two rotations: each column rebuilds its own rotation (order and unit honoured)"""
-        Rs = []
-        for i in range(2):
-            r, p, y = h.angle(f'r{i}', -1.5, 1.5), h.angle(f'p{i}', -1.5, 1.5), h.angle(f'y{i}', -1.5, 1.5)
-            Rs.append(h.arr(rpy_ref(h, r, p, y, o)))
+        # one symbolic and one concrete element: every branch of tr2rpy is reached through the symbolic one, the concrete
+        # one shows that each element gets its own column (two symbolic elements square the number of paths)
+        # (narrow generic ranges: the plumbing of order / unit through the multi-valued accessor is the subject; the branches
+        # of tr2rpy over the whole range belong to rpy-roundtrip:* and class-rpy:*)
+        r, p, y = h.angle('r0', 0.2, 0.4), h.angle('p0', -0.5, -0.3), h.angle('y0', 0.4, 0.6)
+        Rs = [h.arr(rpy_ref(h, r, p, y, o)), h.arr(rpy_ref(h, 0.3, -0.4, 0.5, o))]
         for cls, mk in ((SO3, lambda R: R), (SE3, lambda R: hom(h, R, [1, 2, 3]))):
             X = cls([mk(R) for R in Rs], check=False)
             a = np.asarray(X.rpy(order=o))
@@ -207,6 +209,9 @@ for _o in ('zyx', 'xyz', 'yxz'):
             if a.shape != (3, 2):
                 continue
             for i in range(2):
-                h.eq(f'{cls.__name__}: rebuild element {i}', base.rpy2r(a[:, i], order=o), Rs[i], tol=1e-6)
+                # column i is what the base function gives for element i with the same order (its own round trip is
+                # the subject of rpy-roundtrip:*), compared structurally
+                h.same(f'{cls.__name__}: column {i} = tr2rpy(element {i}, order)', a[:, i], base.tr2rpy(Rs[i], order=o))
             d = np.asarray(X.rpy(order=o, unit='deg'))
-            h.eq(f'{cls.__name__}: degrees', d, a * (180 / math.pi), tol=1e-6, scale=180)
+            for i in range(2):
+                h.same(f'{cls.__name__}: degrees, column {i}', d[:, i], base.tr2rpy(Rs[i], order=o, unit='deg'))
